@@ -74,7 +74,10 @@ def extreme_cases(seed, n, orders):
     return cases
 
 
-def run_seq_property(pid, tier, seed, extra_cases=None, level="proof", ncases=None, note=None, post=None):
+LAST = {}
+
+
+def run_seq_property(pid, tier, seed, extra_cases=None, level="proof", ncases=None, note=None, post=None, write=True, proj=None):
     t0 = time.time()
     names, done, problems = common.obligations(pid)
     tmp = vh = None
@@ -199,7 +202,10 @@ def run_seq_property(pid, tier, seed, extra_cases=None, level="proof", ncases=No
         lvl = level if (len(done) == len(names) and names) else "other"
         if lvl == "other" and "explanation" not in coverage:
             coverage["explanation"] = "not every listed theorem is discharged; see obligations/discharged"
-        common.write_evidence(pid, tier, seed, lvl, coverage, time.time() - t0, viol_count)
+        LAST.clear()
+        LAST.update(coverage=coverage, level=lvl, violations=viol_count)
+        if write:
+            common.write_evidence(pid, tier, seed, lvl, coverage, time.time() - t0, viol_count)
         common.log("%s %s: %d cases, %d ops, corr mismatches %d, monitor violations %d, theorems %d/%d, %.1fs"
                    % (pid, tier, len(cases), nops, len(mismatches), len(mon_viol), len(done), len(names), time.time() - t0))
         return 1 if viol_count else 0
